@@ -152,7 +152,53 @@ def gen_calls(reg, tier, rng):
             if {l, r} == {'vh_big', 'vh_long'}:
                 continue    # 20000 elements x 64 KiB: an output of that size (joinString) is what was asked for, not an allocation "unrelated to its arguments"
             calls.append(('b:%s:%s:%s' % (name, lt, rt), l + '|' + r, '%s %s %s' % (l, name, r)))
+    calls += mutating_calls(reg)
     return calls
+
+
+# code arguments that change the very container the operator is walking (bounded by a counter so that growth ends)
+MUTATIONS = {
+    'pushBack': 'vh_m pushBack 9',
+    'append': 'vh_m append [7,8,9]',
+    'grow-resize': 'vh_m resize ((count vh_m) + 3)',
+    'set-beyond': 'vh_m set [(count vh_m) + 2, 5]',
+    'insert-front': 'vh_m = [0] + vh_m',
+    'shrink-one': 'vh_m deleteAt 0',
+    'shrink-last': 'vh_m deleteAt ((count vh_m) - 1)',
+    'shrink-all': 'vh_m resize 0',
+    'shrink-range': 'vh_m deleteRange [0, 2]',
+    'grow-then-shrink': 'if (vh_c % 2 == 1) then {vh_m append [1,2,3,4,5,6,7,8]} else {vh_m resize 1}',
+    'reverse': 'reverse vh_m',
+    'rebind': 'vh_m = []',
+}
+HM_MUTATIONS = {
+    'hm-insert': 'vh_m set [vh_c + 100, 1]',
+    'hm-insert-many': 'for "_q" from 0 to 40 do {vh_m set [vh_c * 100 + _q, 1]}',
+    'hm-delete-current': 'vh_m deleteAt _x',
+    'hm-delete-other': 'vh_m deleteAt 3',
+    'hm-rebind': 'vh_m = createHashMap',
+}
+
+
+def mutating_calls(reg):
+    """every registered (ARRAY|HASHMAP) x CODE operator, with code that grows / shrinks / rebinds the container being walked"""
+    out = []
+    for b in reg['b']:
+        name, lt, rt, prec, desc = b
+        if desc == '':
+            continue
+        if {lt, rt} == {'ARRAY', 'CODE'}:
+            init, muts = 'vh_m = [1,2,3,4]', MUTATIONS
+        elif {lt, rt} == {'HASHMAP', 'CODE'}:
+            init, muts = 'vh_m = createHashMapFromArray [[1,2],[3,4],[5,6]]', HM_MUTATIONS
+        else:
+            continue
+        for mk, mut in sorted(muts.items()):
+            for tail in ('true', '_x'):
+                code = '{vh_c = vh_c + 1; if (vh_c < 7) then {%s}; %s}' % (mut, tail)
+                expr = ('vh_m %s %s' % (name, code)) if rt == 'CODE' else ('%s %s vh_m' % (code, name))
+                out.append(('b:%s:%s:%s' % (name, lt, rt), 'mutating:%s:%s' % (mk, tail), '%s; vh_c = 0; vh_r = %s; vh_s = str vh_m' % (init, expr)))
+    return out
 
 
 def argclass(a):
